@@ -1520,3 +1520,87 @@ func ruleSentinelResultsNotComparedWithEachOther(c *core.Ctx) {
 		c.Undecided(rule, "anchor/discarded verdicts", 0, "no `v, _ := f(x)` with a (T, bool) function of the module found in pkg/dsl")
 	}
 }
+
+func init() {
+	reg("C02", ruleBackEndsDoNotDeduplicateInstantiationsByName)
+	reg("C08", ruleBackEndsDoNotDeduplicateInstantiationsByName)
+	reg("C14", ruleBackEndsDoNotDeduplicateInstantiationsByName)
+}
+
+// ---------------------------------------------------------------------------------------------------------------
+// VS3: a back-end walk that follows SimpleType.ResolvedDefinition does not de-duplicate the definitions it enters by
+// NAME. By the time the back ends run, a reference to `Labeled<int>` and one to `Labeled<double>` resolve to two
+// different instantiated definitions with one qualified name; a visited-set of names enters the first and skips the
+// others, so whatever the walk collects below them (union serializers, dtypes) exists for the first instantiation only.
+// (VS1 is the clause for unqualified names and different namespaces.)
+// ---------------------------------------------------------------------------------------------------------------
+func ruleBackEndsDoNotDeduplicateInstantiationsByName(c *core.Ctx) {
+	const rule = "VS3"
+	c.Rule(rule, "internal/* back ends: a function that follows SimpleType.ResolvedDefinition keeps no set (map to bool / struct{}) keyed by a definition's GetQualifiedName(): instantiations of one generic definition share that name", 5)
+	n := 0
+	for _, d := range c.AllDecls() {
+		p := c.DeclPkg(d)
+		if p == nil || d.Body == nil || c.IsTestFile(d.Pos()) || !strings.Contains(p.PkgPath, "/internal/") {
+			continue
+		}
+		info := p.TypesInfo
+		follows := false
+		ast.Inspect(d.Body, func(m ast.Node) bool {
+			if sel, ok := m.(*ast.SelectorExpr); ok && sel.Sel.Name == "ResolvedDefinition" {
+				if nt := core.NamedOf(derefType(info.TypeOf(sel.X))); nt != nil && nt.Obj().Name() == "SimpleType" {
+					follows = true
+				}
+			}
+			return true
+		})
+		if !follows {
+			continue
+		}
+		n++
+		bad := token.NoPos
+		what := ""
+		ast.Inspect(d.Body, func(m ast.Node) bool {
+			ix, ok := m.(*ast.IndexExpr)
+			if !ok {
+				return true
+			}
+			mt, isMap := derefType(info.TypeOf(ix.X)).Underlying().(*types.Map)
+			if !isMap {
+				return true
+			}
+			isSet := false
+			switch v := mt.Elem().Underlying().(type) {
+			case *types.Basic:
+				isSet = v.Kind() == types.Bool
+			case *types.Struct:
+				isSet = v.NumFields() == 0
+			}
+			if !isSet {
+				return true
+			}
+			key := ast.Expr(ix.Index)
+			if id, ok := ast.Unparen(key).(*ast.Ident); ok {
+				key = singleDefRHS(info, d.Body, id)
+			}
+			ast.Inspect(key, func(k ast.Node) bool {
+				if ce, ok := k.(*ast.CallExpr); ok {
+					if sel, ok := ce.Fun.(*ast.SelectorExpr); ok && sel.Sel.Name == "GetQualifiedName" && bad == token.NoPos {
+						bad = ix.Pos()
+						what = types.ExprString(ix.X)
+					}
+				}
+				return true
+			})
+			return true
+		})
+		at := d.Pos()
+		if bad != token.NoPos {
+			at = bad
+		}
+		c.Check(bad == token.NoPos, rule, c.FuncName(d)+"/sets of names", at, "follows ResolvedDefinition without a set of definition names",
+			"`"+what+"` is a set keyed by GetQualifiedName() in a walk that follows ResolvedDefinition: `G<int>` and `G<double>` are different instantiated definitions with the same qualified name, so only the first instantiation is entered and what the walk collects (union serializers, nested types) is missing for the others")
+	}
+	if n == 0 {
+		c.Undecided(rule, "anchor/walks", 0, "no back-end function follows SimpleType.ResolvedDefinition")
+	}
+}
